@@ -1,5 +1,5 @@
 # C09 — each single-knee detector returns the interior optimum of its stated criterion
-import itertools, math, random
+import itertools, math, random, struct
 from core import *
 import gen
 
@@ -16,7 +16,41 @@ PINNED = [
     {'kind': 'lm', 'points': [[2, 6], [5, 4], [7, 10], [10, 19], [11, 4], [14, 2], [17, 10]], 'fit': 'point_fit', 'it': 'original', 'limit': 5, 'family': 'pinned'},
     {'kind': 'lm', 'points': [[2, 6], [5, 4], [7, 10], [10, 19], [11, 4], [14, 2], [17, 10]], 'fit': 'point_fit', 'it': 'adjusted', 'limit': 5, 'family': 'pinned'},
     {'kind': 'lm', 'points': [[2, 6], [5, 4], [7, 10], [10, 19], [11, 4], [14, 2], [17, 10]], 'fit': 'best_fit', 'it': 'original', 'limit': 4, 'family': 'pinned'},
+    # integer-typed presentations (counts / sizes as they come out of np.array([[1, 100], [2, 60], ...]))
+    {'kind': 'menger', 'points': [[1, 100], [2, 60], [3, 35], [4, 20], [5, 12], [6, 9], [7, 8]], 'dtype': 'int64', 'family': 'pinned'},
+    {'kind': 'curv', 'points': [[1, 100], [2, 60], [3, 35], [4, 20], [5, 12], [6, 9], [7, 8]], 'dtype': 'int64', 'family': 'pinned'},
+    {'kind': 'dfdt', 'points': [[1, 100], [2, 60], [3, 35], [4, 20], [5, 12], [6, 9], [7, 8]], 'dtype': 'int32', 'family': 'pinned'},
+    {'kind': 'lm', 'points': [[1, 100], [2, 60], [3, 35], [4, 20], [5, 12], [6, 9], [7, 8]], 'dtype': 'int64', 'fit': 'best_fit', 'it': 'adjusted', 'limit': 4, 'family': 'pinned'},
 ]
+
+
+def pick_dtype(rng, pts):
+    """how the points are PRESENTED to the implementation (the model and the oracle tables always get the same values as
+    doubles, evaluated on a float64 copy).  Integer-valued curves: a quarter as int64, some as int32 (magnitudes kept small
+    enough that integer and double arithmetic agree exactly); a few float32 presentations of float32-representable curves,
+    judged on the Tier-S clauses only (float32 arithmetic legitimately moves near-ties)."""
+    vals = [v for p in pts for v in p]
+    integral = all(math.isfinite(v) and float(v) == int(v) for v in vals)
+    r = rng.random()
+    if integral and max(abs(v) for v in vals) < 2 ** 26:
+        if r < 0.25:
+            return 'int64'
+        if r < 0.32 and max(abs(v) for v in vals) < 2 ** 15:
+            return 'int32'
+    # float32 only where single precision is ample (|v| < 4096): with large offsets np.polyfit's float32 rcond already makes
+    # Fit.best_fit rank-deficient (IndexError on e.g. x = 4000008..4000012) — a precision limit of the input, reported in C09.md
+    if r > 0.94 and all(math.isfinite(v) and abs(v) < 4096 and struct.unpack('f', struct.pack('f', v))[0] == v for v in vals):
+        return 'float32'
+    return 'float64'
+
+
+def bytes_curve(rng, n):
+    """spacing-like magnitudes: x = cache sizes in bytes (multiples of 64 KiB), y = a miss ratio in [0, 1]: second
+    differences are ~1e-10 and smaller, far below any absolute tolerance, yet carry the whole shape"""
+    fam, pts = gen.mrc_curve(rng, n)
+    step = 65536.0 * rng.choice([1, 1, 4, 16])
+    x0 = pts[0][0]
+    return 'bytes', [[(p[0] - x0 + 1.0) * step, p[1]] for p in pts]
 
 
 def cands(m):
@@ -30,7 +64,9 @@ class C09:
     rule = ('generated performance curves (gen.curve families incl. collinear runs, plateaus, zig-zags, huge/tiny magnitudes, elbows) '
             'with n >= 3 (>= 5 for the L-method) x {curvature.knee, dfdt.get_knee, dfdt.knee, menger.knee, lmethod.get_knee x Fit x Cost, '
             'lmethod.knee x Fit x Refinement x limit in {2,3,4,5,10,n}} — configurations enumerated round-robin (every configuration on every '
-            'curve of the small-n stratum in the thorough tier); non-trivial = the optimum is not at the first candidate (loop-free entry points) / '
+            'curve of the small-n stratum in the thorough tier); a quarter of the integer-valued curves are presented to every entry point as int64 arrays, some as int32 '
+            '(oracle tables always from a float64 copy), a few float32-representable ones as float32 (Tier-S clauses only); spacing-like magnitudes '
+            '(x in bytes, 64 KiB steps, y in [0,1]) and large additive offsets included; non-trivial = the optimum is not at the first candidate (loop-free entry points) / '
             'the refinement loop ran at least 2 iterations (dfdt.knee, lmethod.knee); distinct by (entry point, configuration, curve)')
     assumptions = ['Tier O facts are instantiated on binary64: non-NaN doubles are totally pre-ordered, comparisons with NaN are false (both proved from FloatAxioms)',
                    'limit is a non-negative integer; curves are finite with strictly increasing x']
@@ -55,13 +91,14 @@ class C09:
                 n = rng.randint(13, nmax)
             else:
                 n = rng.randint(3, min(nmax, 12))
-            fam, pts = gen.curve(rng, n) if rng.random() < 0.85 else gen.mrc_curve(rng, n)
+            u = rng.random()
+            fam, pts = gen.curve(rng, n) if u < 0.78 else (gen.mrc_curve(rng, n) if u < 0.92 else bytes_curve(rng, n))
             if rng.random() < 0.08:
                 # overflow stratum: still a valid curve (finite, increasing x, y >= 0) but the criteria reach inf / NaN
                 e = rng.choice([155, 200, 300])
                 sx = rng.choice([1.0, 1e-8, 1e8])
                 fam, pts = 'extreme', [[x * sx, min(y * 10.0 ** e, 1e308)] for x, y in pts]
-            base = {'points': pts, 'family': fam}
+            base = {'points': pts, 'family': fam, 'dtype': pick_dtype(rng, pts)}
             for kind in ('curv', 'dfdtg', 'dfdt', 'menger'):
                 cases.append(dict(base, kind=kind))
             if n >= 5:
@@ -76,10 +113,11 @@ class C09:
         for j in range(nsmall):
             n = rng.randint(5, 9)
             fam, pts = gen.curve(rng, n)
+            dt = pick_dtype(rng, pts)
             for f, r, l in LM_CONFIGS:
-                cases.append({'points': pts, 'family': fam, 'kind': 'lm', 'fit': f, 'it': r, 'limit': (n if l == 'n' else l)})
+                cases.append({'points': pts, 'family': fam, 'dtype': dt, 'kind': 'lm', 'fit': f, 'it': r, 'limit': (n if l == 'n' else l)})
             for f, cst in LMG_CONFIGS:
-                cases.append({'points': pts, 'family': fam, 'kind': 'lmg', 'fit': f, 'cost': cst})
+                cases.append({'points': pts, 'family': fam, 'dtype': dt, 'kind': 'lmg', 'fit': f, 'cost': cst})
         # malformed stream (outside the domain: too few points); never a violation by itself
         for n in (2, 3, 4):
             fam, pts = gen.curve(rng, n)
@@ -169,7 +207,8 @@ class C09:
         import kneeliverse.menger as menger
         import kneeliverse.lmethod as lm
         c = dict(c)
-        pts = np.array(c['points'], dtype=float)
+        # the array handed to the implementation, in the presentation dtype; _tables works on its own float64 copy
+        pts = np.array(c['points'], dtype=float).astype(np.dtype(c.get('dtype', 'float64')))
         n = len(pts)
         kind = c['kind']
         trace = []
@@ -251,6 +290,10 @@ class C09:
         return 'IExc'
 
     def emit(self, c):
+        t = self._emit(c)
+        return ('CLoose (%s)' % t) if c.get('dtype') == 'float32' else t
+
+    def _emit(self, c):
         kind = c['kind']
         n = cnat(c['n'])
         out = self._iout(c)
@@ -274,7 +317,7 @@ class C09:
         if o.get('st') != 'ok':
             return None
         kind = c['kind']
-        cfg = (c.get('fit'), c.get('cost'), c.get('it'), c.get('limit'))
+        cfg = (c.get('fit'), c.get('cost'), c.get('it'), c.get('limit'), c.get('dtype', 'float64'))
         key = (kind, cfg, tuple(map(tuple, c['points'])))
         if kind in ('dfdt', 'lm'):
             return key if len(c.get('ks') or []) >= 2 else None
@@ -283,7 +326,7 @@ class C09:
 
     def classify(self, c):
         o = c.get('out', {})
-        h = {'entry point': c['kind'], 'n': (min(c.get('n', 0), 64) // 4) * 4, 'family': c.get('family', '?'),
+        h = {'entry point': c['kind'], 'presented as': c.get('dtype', 'float64'), 'n': (min(c.get('n', 0), 64) // 4) * 4, 'family': c.get('family', '?'),
              'outcome': o.get('st', '?') if o.get('st') != 'exc' else 'exc:' + str(o.get('exc'))[:24]}
         if c['kind'] in ('dfdt', 'lm'):
             h['loop iterations'] = len(c.get('ks') or [])
@@ -303,7 +346,7 @@ class C09:
         out = []
         pts = c['points']
         lo = 5 if c['kind'] in ('lm', 'lmg') else 3
-        raw = {k: v for k, v in c.items() if k in ('kind', 'points', 'family', 'fit', 'cost', 'it', 'limit')}
+        raw = {k: v for k, v in c.items() if k in ('kind', 'points', 'family', 'fit', 'cost', 'it', 'limit', 'dtype')}
         for j in range(len(pts)):
             if len(pts) > lo:
                 d = dict(raw)
@@ -312,11 +355,11 @@ class C09:
         return out
 
     def sample(self, c):
-        keys = ['kind', 'points', 'fit', 'cost', 'it', 'limit', 'out', 'ks']
+        keys = ['kind', 'points', 'dtype', 'fit', 'cost', 'it', 'limit', 'out', 'ks']
         return {k: c[k] for k in keys if k in c}
 
     def describe(self, c):
-        p = 'np.array(%s, dtype=float)' % (c['points'],)
+        p = 'np.array(%s, dtype=float)' % (c['points'],) + ('.astype(np.%s)' % c['dtype'] if c.get('dtype', 'float64') != 'float64' else '')
         k = c['kind']
         if k == 'curv':
             return 'kneeliverse.curvature.knee(%s)' % p
